@@ -31,8 +31,12 @@ class HeapProgram:
                 self.ops.append(("churn", r.randrange(1, 4)))
             elif k < 0.92:
                 self.ops.append(("link", v, nid, nid + 1)); nid += 2
-            else:
+            elif k < 0.96 or not dtor:
                 self.ops.append(("walk", v, r.randrange(1, 5)))
+            else:
+                # destructor programs only (no Lean reference): an owner WITHOUT a destructor that holds a Node WITH one and is also
+                # referenced from a dead cycle; an object with a qubit field held only as a pending argument while the callee churns
+                self.ops.append(r.choice([("hold", v, nid), ("pendq", nid, nid + 1)])); nid += 2
         for v in range(NV):
             self.ops.append(("walk", v, 3))
 
@@ -41,10 +45,16 @@ class HeapProgram:
 
     def source(self):
         d = " public destructor() -> void { echo(\"d\" + id); }" if self.dtor else ""
+        extra = []
+        if any(op[0] in ("hold", "pendq") for op in self.ops):
+            extra = ["class Hold { public Node h; public Hold link; public Hold keep; public constructor() -> Hold = default; }",
+                     "class QNode { public qubit q; public Node child; public constructor() -> QNode = default; }",
+                     "function mkq(int i) -> QNode { QNode t = new QNode(); t.child = new Node(i); return t; }",
+                     "function useq(QNode x, Node y) -> int { return x.child.id * 1000 + y.id; }"]
         L = ["class Node { public int id; public Node a; public Node b; public constructor(int id) -> Node { this.id = id; return this; }%s }" % d,
              "function churn(int n) -> void { int i = 0; while (i < n) { Node p = new Node(0 - 1); Node q = new Node(0 - 2); p.a = q; q.a = p; i = i + 1; } }",
              "function mk(int i) -> Node { churn(2); Node r = new Node(i); return r; }",
-             "function link(Node x, Node y) -> Node { x.a = y; y.b = x; return x; }",
+             "function link(Node x, Node y) -> Node { x.a = y; y.b = x; return x; }"] + extra + [
              "function main() -> void {"]
         for v in range(NV):
             L.append("    Node v%d = null;" % v)
@@ -67,6 +77,12 @@ class HeapProgram:
                 L.append("    churn(%d);" % op[1])
             elif k == "link":
                 L.append("    v%d = link(new Node(%d), mk(%d));" % (op[1], op[2], op[3]))
+            elif k == "hold":
+                # k owns a Node, a dead cycle keeps a reference to k, collections may run, then the last live reference goes
+                L.append("    { Hold k = new Hold(); k.h = new Node(%d); { Hold g1 = new Hold(); Hold g2 = new Hold(); g1.link = g2; g2.link = g1; g1.keep = k; } "
+                         "churn(1); if (v%d != null) { echo(v%d.id); } k = null; churn(1); echo(\"held\"); }" % (op[2], op[1], op[1]))
+            elif k == "pendq":
+                L.append("    echo(useq(mkq(%d), mk(%d)));" % (op[1], op[2]))
             elif k == "walk":
                 L.append("    { Node c = v%d; int i = 0; while (i < %d) { if (c != null) { echo(c.id); c = c.a; } i = i + 1; } }" % (op[1], op[2]))
         L.append("}")
